@@ -100,6 +100,7 @@ async def produce_workload(loop, src, cluster, cfg, plan, tasks_spec, res):
         cluster.allow_unknown_producer_seq = True
     sends = []  # (task, index, partition, key, value, future or exception, accepted order)
     order = []
+    progress = asyncio.Event()
 
     async def sender(j, parts):
         for i, p in enumerate(parts):
@@ -111,27 +112,44 @@ async def produce_workload(loop, src, cluster, cfg, plan, tasks_spec, res):
                 sends.append(dict(task=j, i=i, p=p, key=key, value=value, fut=None, exc=e, ts=ts))
                 continue
             order.append((j, i))
+            progress.set()
             sends.append(dict(task=j, i=i, p=p, key=key, value=value, fut=fut, exc=None, ts=ts,
                               accepted_at=loop.time()))
             if cfg.get("yield_between", True):
                 await asyncio.sleep(0)
 
     ts_ = [asyncio.ensure_future(sender(j, parts)) for j, parts in enumerate(tasks_spec)]
-    stop_at = cfg.get("stop_after_event")
-    await asyncio.wait(ts_)
+    early = cfg.get("stop_after_accepted")
+    if early is None:
+        await asyncio.wait(ts_)
+    else:
+        # stop()/flush() issued while sender tasks are still running (after `early` accepted sends)
+        while len(order) < early and not all(t.done() for t in ts_):
+            progress.clear()
+            await asyncio.wait([asyncio.ensure_future(progress.wait()), *[t for t in ts_ if not t.done()]],
+                               return_when=asyncio.FIRST_COMPLETED)
     res["sends"] = sends
     res["sent_done_at"] = loop.time()
     how = cfg.get("finish", "flush_stop")
     t0 = loop.time()
     if how in ("flush_stop", "flush"):
+        before = [s for s in sends if s["fut"] is not None]
         await producer.flush()
         res["flush_returned_at"] = loop.time()
-        res["pending_after_flush"] = [s for s in sends if s["fut"] is not None and not s["fut"].done()]
+        res["pending_after_flush"] = [s for s in before if not s["fut"].done()]
     if how in ("flush_stop", "stop"):
+        before = [s for s in sends if s["fut"] is not None]
         await producer.stop()
         res["stop_returned_at"] = loop.time()
-        res["pending_after_stop"] = [s for s in sends if s["fut"] is not None and not s["fut"].done()]
+        res["pending_after_stop"] = [s for s in before if not s["fut"].done()]
     res["finish_took"] = loop.time() - t0
+    if early is not None:
+        # snapshot at the instant stop() returned, then let the sender tasks run into ProducerClosed
+        await asyncio.wait(ts_, timeout=5)
+        for t in ts_:
+            if not t.done():
+                t.cancel()
+        res["late_accepted"] = [s for s in sends if s["fut"] is not None and s.get("accepted_at", 0) > res.get("stop_returned_at", 1e9)]
     res["tasks_left"] = [t for t in asyncio.all_tasks(loop) if t is not asyncio.current_task(loop) and not t.done()]
     res["timers_left"] = [h for h in loop.live_timers()]
     res["conns_open"] = [c for c in cluster.conns if c.connected()]
